@@ -14,6 +14,7 @@ def _h(name, func, bounds, quick, thorough=None, kf=None, unwind=14, **kw):
                 for k in (kf or []): c[k] = 1          # TEMPORARY: pending findings (see PENDING_FINDINGS)
             out.append(c)
         return out
+    kw.setdefault('backend', 'cadical')
     HARNESSES.append(dict(name=name, src='harnesses/C19.c', func=func, kernels=['C19_containers'], unwind=unwind, bounds=bounds,
                           quick=cf(quick), thorough=cf(thorough or quick), **kw))
 
@@ -25,25 +26,48 @@ def _pre(pairs, **kw): return [dict(kw, PRE0=a, PRE1=b) for a, b in pairs]
 QP = [(0, 0), (1, 3), (3, 1), (2, 5), (5, 4), (4, 6), (6, 2)]
 ALLP = [(a, b) for a in range(7) for b in range(7)]
 HEAPF = ['--memory-leak-check', '--slice-formula']
-_h('hist_vector', 'h_hist', 'utl::vector<int> (heap, malloc/free; CBMC heap model with --memory-leak-check); ' + HB, quick=_pre(QP, KIND=0, K=1, OUTCAP=8), thorough=_pre(ALLP, KIND=0, K=1, OUTCAP=8) + [dict(KIND=0, K=2, OUTCAP=9, PRE0=0, PRE1=0, _timeout=1800, _mem_gb=14)],
+OPS2 = [(a, b) for a in range(7) for b in range(7)]
+def _ops(pairs, **kw): return [dict(kw, OP0=a, OP1=b) for a, b in pairs]
+_h('hist_vector', 'h_hist', 'utl::vector<int> (heap, malloc/free; CBMC heap model with --memory-leak-check); ' + HB + '. K=2 queries: the two operations are per-query constants (every pair of the 7-letter alphabet in the thorough tier), targets and arguments symbolic',
+   quick=_pre([(0, 0)], KIND=0, K=1, OUTCAP=8) + _ops([(0, 1), (1, 0), (1, 1), (5, 1), (3, 0), (1, 3), (0, 5), (1, 2)], KIND=0, K=2, OUTCAP=9),
+   thorough=_pre(ALLP, KIND=0, K=1, OUTCAP=8) + _ops(OPS2, KIND=0, K=2, OUTCAP=9) + [dict(KIND=0, K=2, OUTCAP=9, PRE0=0, PRE1=0, _timeout=1800, _mem_gb=14)],
    cbmc_flags=HEAPF, unwind=10, mem_gb=6, kf=['KF_C19_VECTOR_SIZED_CTOR_UNINIT', 'KF_C19_VECTOR_ZERO_LEAK'])
 _h('hist_static_vector', 'h_hist', 'utl::static_vector<int,4>; ' + HB + '; over-capacity push_back/resize must be refused with contents unchanged', quick=_pre([(0, 0)], KIND=1, K=3, OUTCAP=8) + _pre([(2, 1), (5, 3)], KIND=1, K=2, OUTCAP=8),
    thorough=_pre([(0, 0)], KIND=1, K=5, OUTCAP=8) + _pre(ALLP, KIND=1, K=2, OUTCAP=8), unwind=10, kf=['KF_C19_STATIC_RESIZE_STALE'])
-_h('hist_small_vector_stl', 'h_hist', 'small_vector<int,3> over std::variant<utl::static_vector, std::vector> (switches to the heap beyond 3 elements), with --memory-leak-check; ' + HB, quick=_pre([(0, 0), (1, 2), (2, 1), (5, 6)], KIND=2, K=1, OUTCAP=8),
-   thorough=_pre(ALLP, KIND=2, K=1, OUTCAP=8), cbmc_flags=HEAPF, unwind=10, mem_gb=6, kf=['KF_C19_STATIC_RESIZE_STALE'])
-_h('hist_small_vector_utl', 'h_hist', 'small_vector<int,3> over utl::either<utl::static_vector, utl::vector>, with --memory-leak-check; ' + HB, quick=_pre([(0, 0), (1, 2), (2, 1), (5, 6)], KIND=3, K=1, OUTCAP=8),
-   thorough=_pre(ALLP, KIND=3, K=1, OUTCAP=8), cbmc_flags=HEAPF, unwind=10, mem_gb=6, kf=['KF_C19_STATIC_RESIZE_STALE'])
-_h('ctor', 'h_ctor', 'utl::vector(N) N in 0..6 and utl::vector(a,b,c), with --memory-leak-check', quick=[{}], cbmc_flags=LEAK)
-_h('ctor_static', 'h_ctor_static', 'utl::static_vector<int,4>(N), N in 0..6', quick=[{}])
+SVOPS = [dict(OP0=0, PRE0=0, PRE1=0)] + [dict(OP0=o, PRE0=1, PRE1=6) for o in (2, 3, 4, 5)]
+SVB = ('; in-place (static) mode only: K=1, the operation is a per-query constant out of {push_back from empty, write, assign other, self-assign, copy-construct+assign} on objects prepared by concrete prefixes, '
+       'target and arguments symbolic. Any query in which an object switches to its heap alternative (pointer stored in a union) gave no verdict: see OUTSIDE')
+_h('hist_small_vector_utl', 'h_hist', 'small_vector<int,3> over utl::either<utl::static_vector, utl::vector>, with --memory-leak-check' + SVB, quick=[dict(c, KIND=3, K=1, OUTCAP=8) for c in SVOPS],
+   thorough=[dict(c, KIND=3, K=1, OUTCAP=8) for c in SVOPS] + [dict(KIND=3, K=1, OUTCAP=8, OP0=1, PRE0=1, PRE1=6, _timeout=1800, _mem_gb=14)], cbmc_flags=HEAPF, unwind=10, mem_gb=6, kf=['KF_C19_STATIC_RESIZE_STALE'])
+_h('hist_small_vector_stl', 'h_hist', 'small_vector<int,3> over std::variant<utl::static_vector, std::vector>, with --memory-leak-check' + SVB, quick=[dict(c, KIND=2, K=1, OUTCAP=8) for c in SVOPS],
+   cbmc_flags=HEAPF, unwind=10, mem_gb=6, kf=['KF_C19_STATIC_RESIZE_STALE'])
+_h('ctor', 'h_ctor', 'utl::vector(N) N in 0..6 and utl::vector(a,b,c), with --memory-leak-check', quick=[{}], cbmc_flags=LEAK, kf=['KF_C19_VECTOR_SIZED_CTOR_UNINIT'])
+_h('ctor_static', 'h_ctor_static', 'utl::static_vector<int,4>(N), N in 0..6', quick=[{}], kf=['KF_C19_STATIC_SIZED_CTOR_OVER_CAPACITY'])
 _h('copy_independent', 'h_copy_independent', 'utl::vector copy, then a write to the source at a symbolic index; size 1..6, all values symbolic; with --memory-leak-check', quick=[{}], cbmc_flags=LEAK)
-_h('array', 'h_array', 'utl::array<int,4>: K symbolic steps from {operator[] write, at() write, assign other, self-assign, copy-construct+assign} on two objects with symbolic initial contents', quick=[{'K': 4}], thorough=[{'K': 7}])
-_h('tuple', 'h_tuple', 'utl::tuple / utl::tuplev2 <int, unsigned char, size_t>: K symbolic steps from {get<0|1|2> write, assign other, self-assign, copy-construct+assign} on two objects', quick=[{'K': 4, 'TUPLEV': 1}, {'K': 4, 'TUPLEV': 2}], thorough=[{'K': 7, 'TUPLEV': 1}, {'K': 7, 'TUPLEV': 2}])
+_h('array', 'h_array', 'utl::array<int,4>: K symbolic steps from {operator[] write, at() write, assign other, self-assign, copy-construct+assign} on two objects with symbolic initial contents', quick=[{'K': 4}], thorough=[{'K': 6}])
+_h('tuple', 'h_tuple', 'utl::tuple / utl::tuplev2 <int, unsigned char, size_t>: K symbolic steps from {get<0|1|2> write, assign other, self-assign, copy-construct+assign} on two objects', quick=[{'K': 3, 'TUPLEV': 1}, {'K': 3, 'TUPLEV': 2}], thorough=[{'K': 5, 'TUPLEV': 1}, {'K': 5, 'TUPLEV': 2}])
 _h('maybe', 'h_maybe', 'utl::maybe<int>: K symbolic steps from {assign value, assign nothing, assign other, self-assign, copy-construct+assign, value-construct+assign, write through *} on two objects', quick=[{'K': 4}], thorough=[{'K': 7}])
 _h('maybe_f64', 'h_maybe_f64', 'utl::maybe<double>: same alphabet, values any bit pattern', quick=[{'K': 4}], thorough=[{'K': 7}])
 _h('either', 'h_either', 'utl::either<int,unsigned char>: K symbolic steps from {assign left, assign right, assign other, self-assign, copy-construct+assign, construct-left/right+assign}', quick=[{'K': 4}], thorough=[{'K': 7}])
-_h('either_heap', 'h_either_heap', 'utl::either<int, utl::vector<int>> (non-trivial alternative), with --memory-leak-check', quick=[{'K': 2}], thorough=[{'K': 3}], cbmc_flags=LEAK)
-_h('maybe_heap', 'h_maybe_heap', 'utl::maybe<utl::vector<int>> (non-trivial value), with --memory-leak-check', quick=[{'K': 2}], thorough=[{'K': 3}], cbmc_flags=LEAK)
+_h('either_heap', 'h_either_heap', 'utl::either<int, utl::vector<int>> (non-trivial alternative), with --memory-leak-check', quick=[{'K': 1}], thorough=[{'K': 2, '_timeout': 1800, '_mem_gb': 12}], cbmc_flags=LEAK, mem_gb=6, kf=['KF_C19_EITHER_NONTRIVIAL'])
+_h('maybe_heap', 'h_maybe_heap', 'utl::maybe<utl::vector<int>> (non-trivial value), with --memory-leak-check', quick=[{'K': 1}], thorough=[{'K': 2, '_timeout': 1800, '_mem_gb': 12}], cbmc_flags=LEAK, mem_gb=6, kf=['KF_C19_MAYBE_NONTRIVIAL'])
 PENDING_FINDINGS = []
-OUTSIDE = []
-ASSUMPTIONS = []
-CLAIM = dict(text='', note='')
+OUTSIDE = [
+ 'utl::vector histories of more than 2 fully symbolic steps: with CBMC\'s heap model a 2-step history with all 7 operations symbolic exhausts 7 GB (and 3 steps on ONE object > 7 GB / no verdict in 400 s); '
+ 'reached instead: 1 symbolic step (all operations) after every pair of 7 concrete reachable pre-states (thorough) and all 49 two-operation sequences with symbolic targets/arguments (thorough; 8 of them quick). '
+ 'A slot allocator behind nmtools_malloc/nmtools_free (kernels built with -DC19_POOL, kept in the source) did not help: K=2 gave no verdict in 600 s',
+ 'small_vector once an object switches to its heap alternative (std::vector / utl::vector stored in a variant/union) and small_vector::resize: no verdict (out of memory at 8.5 GB within 60 s for K=1 with a constant operation; '
+ 'resize: no verdict in 1149 s / 9.5 GB). Only its in-place mode is covered',
+ 'histories of length 7 / random length-200 sequences of the property text; element type double for the vector kinds (int only); read(i) as a separate operation (reads happen when the final state is observed)',
+ 'utl::either / utl::maybe with non-trivial alternatives beyond one step (every step that stores the heap-owning alternative is a pending finding)',
+ 'utl::tuple with non-trivial members; std-flavoured nmtools_* aliases (std::optional, std::variant, std::tuple are not the library\'s own containers)',
+]
+ASSUMPTIONS = ['malloc never fails; CBMC\'s heap model (fresh blocks hold nondeterministic values; --memory-leak-check at exit; pointer/bounds checks on every dereference)',
+               'sized construction of a bounded vector beyond its capacity has no std counterpart: excluded from the histories, probed separately (ctor_static)']
+CLAIM = dict(
+ text='The solver shows that utl::vector<int> (1 symbolic step from 49 pairs of pre-states; every 2-operation sequence), utl::static_vector<int,4> (K <= 3 symbolic steps, up to 6 thorough), small_vector<int,3> in its in-place mode, '
+      'utl::array<int,4>, utl::tuple / tuplev2 <int,unsigned char,size_t>, utl::maybe<int|double> and utl::either<int,unsigned char> hold, for two live objects and every choice of operation, target and arguments, '
+      'exactly the sizes / elements / has_value / active alternative / members of the std::vector / std::array / std::tuple / std::optional / std::variant model: copies are independent of their source, '
+      'self-assignment changes nothing, over-capacity push_back/resize on static_vector is refused with contents unchanged; for the heap-backed vector no block is leaked or freed twice and every access stays inside its block.',
+ note='Pending findings (excluded regions): utl::vector(N) leaves N cells uninitialised; utl::vector(0) leaks its block; static_vector::resize growth exposes stale cells; static_vector(N>capacity) reports size > capacity; '
+      'either/maybe with a heap-owning alternative leak / assign into unconstructed storage. Bounded as stated per harness. Trusted: clang-14 -O1 lowering, engine/ll2c.py, CBMC heap model (cadical back end).')
